@@ -76,5 +76,21 @@ CHECKS = {
           "msgpack) trusted, the correspondence parses real bytes; which protocols serialise lazily is hand-written.",
   'technique': 'Coq proof over a table-driven Gallina model; fail-closed ast translator (faultpipe); differential correspondence; byte-identity non-interference oracle',
  },
+ 'C18': {
+  'text': "Calling a method through the in-process NullServer returns or raises the same native result a client obtains over "
+          "XmlDocument, Soap11 or JsonDocument, for every generated signature over the wrapped, out_bare, empty and field-wise "
+          "bare body styles, 0..n arguments, none/one/many return values, generators, faults and in-headers; both paths enter "
+          "the function exactly once with the same arguments between the same application events; keyword and positional "
+          "invocation are equivalent; an Ignored return reaches the direct caller and goes out as empty; NullServer(ostr=True) "
+          "returns exactly the wire response.",
+  'design_ref': 'DESIGN.md section 6 (C18)',
+  'note': TB + "Proved over an executable Gallina model of _FunctionCall.__call__, _cb_sync, Application.process_request, the "
+          "decorator's message synthesis, the ServerBase Ignored handling and the out-object-to-message step of XmlDocument, "
+          "Soap11 and HierDictDocument; the if/elif chains, is_out_bare(), the packing loops and the protocols' non-wrapped "
+          "branch are regenerated from the sources on every run (Gen/NullSrv.v). Codecs enter as a round-trip hypothesis "
+          "(C01/C02). Two wire-side regions are listed findings (XmlDocument non-wrapped replies, bare requests over dict "
+          "documents). Not modelled: @mrpc, aux contexts, async results, push output, Redirect, non-default message naming.",
+  'technique': 'Coq proof over a Gallina model of NullServer and the wire pipeline + fail-closed ast translator (nullsrv) + differential correspondence and NullServer-vs-wire oracle',
+ },
 }
 NOT_APPLICABLE = {}
